@@ -5,6 +5,34 @@ ROOT = os.path.dirname(os.path.abspath(__file__))
 props = [json.loads(l) for l in open(os.path.join(ROOT, "properties.jsonl"))]
 
 CHECKS = {
+ "C01": dict(category="proof",
+   text="Lean theorems about the solver model (the loop head returns SOLVED only when the termination test holds for the diagnostics it computed; clause-by-clause meaning of the test; termination of the main loop is accepted by Lean's checker on the real loop body) + exact white-box correspondence of the whole-solver model with the real DenseSolver<Q>/SparseSolver<Q,int,Mode> templates (exact rational scalar) on 5 back ends x {Ruiz, identity} x all 16 bound patterns at n=2 and random problems/settings; every SOLVED result of the implementation is certified exactly (Lean predicate certFails: stationarity, primal feasibility, gap, signs, for the user's unscaled data).",
+   design_ref="§6 C01", technique="Lean 4 proof over the solver model + exact-rational differential correspondence + exact certificate predicate",
+   note="exact arithmetic only (rounding not modelled); exact runs limited to 1-2 IPM iterations on n<=4; the scaling-algebra theorem (unscaled certificate from scaled test) is work in progress, the correspondence currently carries that part"),
+ "C04": dict(category="proof",
+   text="Theorem updateTyped_frame (update touches only data/preconditioner/KKT caches and forces a rebuild of the scaling part) + exact white-box correspondence after every op over all 2^8 argument subsets x reuse x solve-in-between, random longer histories incl. repeated setup and h crossing the infinity threshold; every SOLVED after updates is certified exactly for the effective data.",
+   design_ref="§6 C04", technique="Lean 4 proof (frame/invariant over operations) + exact-rational white-box correspondence over update histories",
+   note="coherence invariant theorem is partial (frame only); the exact correspondence carries cache coherence on the enumerated histories; convergence comparisons with a fresh solver in double precision are not part of this check yet"),
+ "C05": dict(category="proof",
+   text="Theorem rejected_is_identity: for every state and every call the model reports as rejected (any argument with a wrong size, sparse nnz/pattern mismatch, call before setup, rejected setup) the state is unchanged. Tie: the model's rejection classification and messages are compared with the real code on every kind of invalid call injected at every position of valid histories; the implementation's white-box state is compared across the rejected call and all later outputs with a twin history, exactly.",
+   design_ref="§6 C05", technique="Lean 4 proof (state-machine: rejected call = identity) + exact differential correspondence with injected invalid calls and twin histories",
+   note="memory-safety clause (no out-of-bounds access) is outside the model; it is exercised by the same histories but not proved"),
+ "C07": dict(category="proof",
+   text="Theorem instances_independent (the interface step has no global component: steps of two instances commute) + exact poison tie: the real templates run with an exact scalar whose never-written values are tagged; use of such a value as an operand is counted per op (must be 0) and never-written slots reaching outputs are compared with the model, over all short words of pattern-growing/shrinking updates and random histories.",
+   design_ref="§6 C07", technique="Lean 4 proof (no shared state) + tagged-uninitialised exact scalar run of the real templates",
+   note="partial: real heap/stack pre-states, object relocation and threads are runtime behaviour not exhibited by the model; Eigen-internal scratch is trusted"),
+ "C08": dict(category="proof",
+   text="Theorem swapLoop_mem (restore_box_dual only permutes) and the well-formedness predicate wellFormedFails evaluated exactly on results equal to the implementation's for all 4^n finite/infinite bound patterns (n=2 all back ends and preconditioners, n=3) and iteration budgets 1,2: exact 0 / +inf at infinite bounds, positivity of slacks, non-negativity of multipliers, original indexing.",
+   design_ref="§6 C08", technique="Lean 4 proof (index loop) + exhaustive bound-pattern enumeration at T=Q with an exact well-formedness predicate",
+   note="restore_box_dual_spec and cone_preserved theorems are work in progress; budgets > 2 need double precision"),
+ "C09": dict(category="proof",
+   text="Theorem phaseA_status_eq_info (+ loop structure) and exact evaluation of diagFails: after every solve of the real solver at T=Q, info.status/iter/primal_obj/dual_obj/duality_gap (and primal_inf/dual_inf for verdict statuses) are compared for exact equality with the quantities recomputed from the user's unscaled data at the returned point, incl. scale_cost=true.",
+   design_ref="§6 C09", technique="Lean 4 proof + exact diagnostics predicate on exact-rational runs of the real templates",
+   note="exact arithmetic; MAX_ITER primal_inf/dual_inf are not claimed (property restriction)"),
+ "C10": dict(category="proof",
+   text="Theorem upperOfMat_reads_upper_only (two P arguments agreeing on the upper triangle are stored identically) + exact differential runs: the four sparse KKT formulations give identical rationals on the same problem/settings (refinement off), and P supplied upper / full / upper+garbage-lower gives the identical complete output in setup() and update() on all five back ends.",
+   design_ref="§6 C10", technique="Lean 4 proof (only utri(P) is read) + exact-rational equality across formulations and P storages",
+   note="agreement of dense vs sparse 'within tolerance' in floating point is not decided here"),
  "C16": dict(category="proof",
    text="Static half decided by proof: a translator regenerates, from the current interfaces/c sources and core headers, the tables of every field copied by piqp_update_result / piqp_set_default_settings / piqp_update_settings (dense and sparse branch) and the status enum; 13 Lean theorems (each `by decide` over the complete table) state that every core field is wired to the like-named C field exactly once and that status values agree. A Python recomputation of every obligation supplies the concrete mismatching pair as replay when a theorem fails. The dynamic half (bitwise C-vs-C++ differential) is reported in the evidence when built.",
    design_ref="§6 C16", technique="Lean 4 `decide` over translator-generated complete field tables (+ differential C/C++ runs)",
@@ -23,7 +51,7 @@ CHECKS = {
    note="Lean kernel + propext/Classical.choice/Quot.sound; hand-written model tied by tie A (finite sample); dense denotation of sparse matrices; IEEE rounding not modelled"),
 }
 
-NA_REASON = "check not built yet in this round (machinery under construction; see DESIGN.md §10 build order)"
+NA_REASON = "check not built yet (machinery under construction; see DESIGN.md §10 build order)"
 
 def main():
     checks, na = [], []
